@@ -146,6 +146,13 @@ struct RConst {
     offset_override: Option<u64>,
     /// node index listed as the graph output (1 = the value node `y`)
     out_id: u32,
+    /// node indices used as the Identity operator's input / output
+    /// (nodes: 0 = constant `w`, 1 = value `y`, 2 = the operator itself)
+    op_in: i32,
+    op_out: i32,
+    /// if set: a second value node `z` (3) and a second Identity operator (4)
+    /// whose input is this node index (2 = the first OPERATOR node)
+    op2_in: Option<i32>,
 }
 
 struct RtenFile {
@@ -213,15 +220,29 @@ fn rten_model(c: &RConst, v2: bool) -> RtenFile {
     let vn = sg::ValueNode::create(&mut b, &sg::ValueNodeArgs { shape: None, dtype: None });
     let name_y = b.create_string("y");
     let n1 = sg::Node::create(&mut b, &sg::NodeArgs { name: Some(name_y), data_type: sg::NodeKind::ValueNode, data: Some(vn.as_union_value()) });
-    let ins = b.create_vector(&[0i32]);
-    let outs = b.create_vector(&[1i32]);
+    let ins = b.create_vector(&[c.op_in]);
+    let outs = b.create_vector(&[c.op_out]);
     let op = sg::OperatorNode::create(
         &mut b,
         &sg::OperatorNodeArgs { type_: sg::OperatorType::Identity, attrs_type: sg::OperatorAttrs::NONE, attrs: None, inputs: Some(ins), outputs: Some(outs) },
     );
     let name_op = b.create_string("id");
     let n2 = sg::Node::create(&mut b, &sg::NodeArgs { name: Some(name_op), data_type: sg::NodeKind::OperatorNode, data: Some(op.as_union_value()) });
-    let nodes = b.create_vector(&[n0, n1, n2]);
+    let mut node_list = vec![n0, n1, n2];
+    if let Some(in2) = c.op2_in {
+        let vz = sg::ValueNode::create(&mut b, &sg::ValueNodeArgs { shape: None, dtype: None });
+        let name_z = b.create_string("z");
+        node_list.push(sg::Node::create(&mut b, &sg::NodeArgs { name: Some(name_z), data_type: sg::NodeKind::ValueNode, data: Some(vz.as_union_value()) }));
+        let ins2 = b.create_vector(&[in2]);
+        let outs2 = b.create_vector(&[3i32]);
+        let op2 = sg::OperatorNode::create(
+            &mut b,
+            &sg::OperatorNodeArgs { type_: sg::OperatorType::Identity, attrs_type: sg::OperatorAttrs::NONE, attrs: None, inputs: Some(ins2), outputs: Some(outs2) },
+        );
+        let name_op2 = b.create_string("id2");
+        node_list.push(sg::Node::create(&mut b, &sg::NodeArgs { name: Some(name_op2), data_type: sg::NodeKind::OperatorNode, data: Some(op2.as_union_value()) }));
+    }
+    let nodes = b.create_vector(&node_list[..]);
     let g_in = b.create_vector::<u32>(&[]);
     let g_out = b.create_vector(&[c.out_id]);
     let graph = sg::Graph::create(&mut b, &sg::GraphArgs { nodes: Some(nodes), inputs: Some(g_in), outputs: Some(g_out), captures: None });
@@ -481,7 +502,7 @@ fn gen_rten(rng: &mut Rng, quick: bool, cands: &[Vec<i64>], scale: usize) -> Vec
                 if quick && label.starts_with("TLC") && dtype > 1 {
                     continue;
                 }
-                let c = RConst { shape: shape.clone(), dtype, stored: *stored, inline, offset_override: None, out_id: 1 };
+                let c = RConst { shape: shape.clone(), dtype, stored: *stored, inline, offset_override: None, out_id: 1, op_in: 0, op_out: 1, op2_in: None };
                 v.push(FCase {
                     fmt: "rten",
                     gen_name: format!("{dname}/{}{}", if inline { "inline" } else { "offset" }, if v2 { "" } else { "/v1" }),
@@ -493,17 +514,27 @@ fn gen_rten(rng: &mut Rng, quick: bool, cands: &[Vec<i64>], scale: usize) -> Vec
         }
         // data_offset boundaries (external constants)
         for off in [0u64, 1, 7, 8, 9, 32, 33, 1 << 31, 1 << 32, (1 << 63) - 1, 1 << 63, u64::MAX - 600, u64::MAX - 7, u64::MAX] {
-            let c = RConst { shape: vec![2, 3], dtype, stored: 6, inline: false, offset_override: Some(off), out_id: 1 };
+            let c = RConst { shape: vec![2, 3], dtype, stored: 6, inline: false, offset_override: Some(off), out_id: 1, op_in: 0, op_out: 1, op2_in: None };
             v.push(FCase { fmt: "rten", gen_name: format!("{dname}/offset"), mutation: format!("data_offset {off}"), bytes: rten_model(&c, true).bytes, ext: None });
         }
     }
     // graph output ids that do not name a value node
     for out_id in [0u32, 2, 3, 7, 1 << 31, u32::MAX] {
-        let c = RConst { shape: vec![2, 3], dtype: 1, stored: 6, inline: true, offset_override: None, out_id };
+        let c = RConst { shape: vec![2, 3], dtype: 1, stored: 6, inline: true, offset_override: None, out_id, op_in: 0, op_out: 1, op2_in: None };
         v.push(FCase { fmt: "rten", gen_name: "graph".into(), mutation: format!("output id {out_id}"), bytes: rten_model(&c, true).bytes, ext: None });
     }
+    // operator inputs / outputs that do not name a value or constant node
+    for (op_in, op_out) in [(2, 1), (1, 1), (0, 0), (0, 2), (2, 2), (3, 1), (0, 3), (-1, 1), (0, -1), (i32::MAX, 1), (i32::MIN, 1)] {
+        let c = RConst { shape: vec![2, 3], dtype: 1, stored: 6, inline: true, offset_override: None, out_id: 1, op_in, op_out, op2_in: None };
+        v.push(FCase { fmt: "rten", gen_name: "graph".into(), mutation: format!("operator input {op_in} output {op_out}"), bytes: rten_model(&c, true).bytes, ext: None });
+    }
+    // a second operator whose input names a value (valid), the first OPERATOR node, or itself
+    for in2 in [1, 0, 2, 3, 4] {
+        let c = RConst { shape: vec![2, 3], dtype: 1, stored: 6, inline: true, offset_override: None, out_id: 3, op_in: 0, op_out: 1, op2_in: Some(in2) };
+        v.push(FCase { fmt: "rten", gen_name: "graph".into(), mutation: format!("second operator input {in2}"), bytes: rten_model(&c, true).bytes, ext: None });
+    }
     // header fields at each boundary
-    let base = rten_model(&RConst { shape: vec![2, 3], dtype: 1, stored: 6, inline: false, offset_override: None, out_id: 1 }, true);
+    let base = rten_model(&RConst { shape: vec![2, 3], dtype: 1, stored: 6, inline: false, offset_override: None, out_id: 1, op_in: 0, op_out: 1, op2_in: None }, true);
     assert!(base.v2);
     let fs = base.bytes.len() as u64;
     let ml = u64::from_le_bytes(base.bytes[16..24].try_into().unwrap());
@@ -526,12 +557,26 @@ fn gen_rten(rng: &mut Rng, quick: bool, cands: &[Vec<i64>], scale: usize) -> Vec
     // seeded flips / truncations of valid files (built ones and the repository's test models)
     let mut bases: Vec<Vec<u8>> = vec![
         base.bytes.clone(),
-        rten_model(&RConst { shape: vec![2, 3], dtype: 0, stored: 6, inline: true, offset_override: None, out_id: 1 }, true).bytes,
-        rten_model(&RConst { shape: vec![2, 3], dtype: 3, stored: 6, inline: true, offset_override: None, out_id: 1 }, false).bytes,
+        rten_model(&RConst { shape: vec![2, 3], dtype: 0, stored: 6, inline: true, offset_override: None, out_id: 1, op_in: 0, op_out: 1, op2_in: None }, true).bytes,
+        rten_model(&RConst { shape: vec![2, 3], dtype: 3, stored: 6, inline: true, offset_override: None, out_id: 1, op_in: 0, op_out: 1, op2_in: None }, false).bytes,
     ];
     for p in ["/repo/model-load-file-test.rten", "/repo/model-load-mmap-test.rten"] {
         if let Ok(b) = std::fs::read(p) {
             v.push(FCase { fmt: "rten", gen_name: "repo file".into(), mutation: "true".into(), bytes: b.clone(), ext: None });
+            // node indices are small integers: overwrite single bytes with 0..4
+            // (all positions in the thorough tier; quick: the positions that hold a 1..4)
+            for k in 0..b.len() {
+                if quick && !(1..=4).contains(&b[k]) {
+                    continue;
+                }
+                for val in 0u8..=4 {
+                    if b[k] != val && (!quick || val == 1 || val == 0) {
+                        let mut m = b.clone();
+                        m[k] = val;
+                        v.push(FCase { fmt: "rten", gen_name: "repo file".into(), mutation: format!("byte {k} := {val}"), bytes: m, ext: None });
+                    }
+                }
+            }
             bases.push(b);
         }
     }
@@ -579,6 +624,7 @@ fn err_class(msg: &str) -> &'static str {
         "attempt to shift",
         "attempt to divide",
         "unsafe precondition",
+        "entered unreachable code",
         "does not match shape",
         "assertion failed", "capacity overflow", "out of range", "out of bounds", "overflow", "unwrap", "storage does not contain data"] {
         if msg.contains(k) {
